@@ -7,7 +7,6 @@ import (
 	"math/rand"
 	"os"
 	"os/exec"
-	"path/filepath"
 	"sort"
 
 	"github.com/skycoin/skycoin/src/cipher"
@@ -188,17 +187,22 @@ func (w *World) build(n *node.Node, cfg WorldConfig) error {
 		var txns []coin.Transaction
 		idx := 0
 		for k := 0; k < nt && idx < len(sp); k++ {
-			ni := 1 + w.rng.Intn(2)
+			ni := 1
+			if w.rng.Intn(5) == 0 {
+				ni = 2
+			}
 			if idx+ni > len(sp) {
 				ni = len(sp) - idx
 			}
 			in := sp[idx : idx+ni]
 			idx += ni
-			var dests []cipher.Address
+			// the first destination is an unlocked harness key, so that spendable outputs never run out
+			unlocked := []int{0, 1, 4, 5, 6}
+			dests := []cipher.Address{w.Chain.Keys[unlocked[w.rng.Intn(len(unlocked))]].Addr}
 			nd := 1 + w.rng.Intn(3)
 			all := append(w.walletAddrs(), w.keyAddrs()...)
 			off := w.rng.Intn(len(all))
-			for d := 0; d < nd; d++ {
+			for d := 1; d < nd; d++ {
 				dests = append(dests, all[(off+d*3)%len(all)])
 			}
 			t, err := w.mkTxn(in, dests, 2)
